@@ -45,7 +45,7 @@ def build(case):
 def rows_of(cat):
     out = []
     for r in cat.catalog.tolist():
-        out.append((r[0].decode("utf-8") if isinstance(r[0], bytes) else str(r[0]),) + tuple(r[1:]))
+        out.append((r[0].decode("utf-8", "backslashreplace") if isinstance(r[0], bytes) else str(r[0]),) + tuple(r[1:]))
     return out
 
 
@@ -54,6 +54,7 @@ def loaders(path):
     from csep.core.catalogs import CSEPCatalog
     return (("load_ascii_catalogs", lambda: list(CSEPCatalog.load_ascii_catalogs(path))),
             ("load_stochastic_event_sets", lambda: list(csep.load_stochastic_event_sets(path, type="csv"))),
+            ("load_stochastic_event_sets:format_csep", lambda: list(csep.load_stochastic_event_sets(path, type="csv", format="csep"))),
             ("load_catalog_forecast", lambda: [c for c in csep.load_catalog_forecast(path)]))
 
 
